@@ -55,7 +55,7 @@ def run(ctx):
             why = 'spec out of fuel'
         for tag, r in (('one-shot', i), ('sliced', i3)):
             ret, tin, tout, calls, o = r
-            if RET[st] != ret:
+            if not same_verdict(st, ret):
                 why = why or '%s: lzma_stream_decoder returned %d, the specification says %s' % (tag, ret, st)
             elif st == 'ok' and (o != out or tin != used):
                 why = why or '%s: output/consumed differ from the specification (out %d vs %d bytes, in %d vs %d)' % (tag, len(o), len(out), tin, used)
